@@ -5,7 +5,7 @@ MUL = "core::ops::arith::Mul<&'b types::number::Number>>::mul"
 DIV = "core::ops::arith::Div<&'b types::number::Number>>::div"
 ADD = "core::ops::arith::Add<&'b types::number::Number>>::add"
 SUB = "core::ops::arith::Sub<&'b types::number::Number>>::sub"
-PEEL = ("Option::<T>::unwrap", "Option::<T>::expect", "Option::<T>::ok_or_else", "Option::<T>::ok_or", "Try>::branch",
+PEEL = ("Option::<T>::unwrap", "Option::<T>::expect", "Option::<T>::ok_or_else", "Option::<T>::ok_or", "Try>::branch", "Iterator>::find", "Iterator::find",
         "Clone>::clone", "Result::<T, E>::unwrap", "Result::<T, E>::expect", "Result::<T, E>::map_err")
 ROLE = {"input": "I", "output": "O", "amount": "A"}
 
@@ -27,7 +27,8 @@ def tree(ap, roles=None):
         if n.endswith(SUB):
             return "sub(%s,%s)" % (tree(root[2][0], roles), tree(root[2][1], roles))
         if n.endswith(PEEL) and root[2]:
-            return tree((root[2][0][0], root[2][0][1]), roles)
+            # (what is selected from the peeled value is selected from what was inside: `find(..).ok_or_else(..)?` then `.output`)
+            return tree((root[2][0][0], tuple(root[2][0][1]) + tuple(projs)), roles)
     # leaf: last meaningful field name
     fields = [p for p in projs if not p.startswith("as ") and not p.isdigit()]
     if fields and fields[-1] in roles:
